@@ -52,6 +52,114 @@ CHECKS = {
              "the per*2per* converters is hand-modelled; real-number axioms, classic, funext (Coquelicot) in Print Assumptions.",
         technique="Coq proof over R on a model translated from the source on every run (field/lra/exp_ineq1/trig lemmas) + interval enclosures",
         design="5/C08"),
+    "C02": dict(
+        text=("Theorems (closed under the global context) about an executable model of FileSet.get_filename / the regex of "
+              "_fill_placeholders + re.match / the time arithmetic of get_info on top of a proved proleptic Gregorian calendar "
+              "(civil<->days round trip for all 3 652 059 days: one 400-year cycle by vm_compute lifted by lia periodicity lemmas): "
+              "parse_render (every placeholder string recovered, repeated placeholders and value lists included), no_end_fields "
+              "(start + time_coverage, or start), roundtrip_end_full (start s, end e, attributes for every s <= e in 1000-9999 / "
+              "1965-2064 incl. leap days, doy 366, year2, milliseconds), handler_overrides / handler_only, unknown / unfilled "
+              "placeholder errors, no_match_rejected. NOT proved and named in Props/C02.v: the sub-day partial-end completion with "
+              "roll-over (roundtrip_end_partial, end_partial_exact) and parse_sound; those clauses are evaluated on every generated "
+              "case by the property's own law checker on the implementation. Tie: the constant tables of the source are compared with "
+              "the model's, and grammar-generated template x period x fill cases run through the real FileSet and through the model in Coq."),
+        note=COMMON_NOTE + " Python re priority semantics, str.format, datetime are modelled and exercised, not verified; ASCII names.",
+        technique="Coq proof (calendar by complete cycle sweep + lia; render/parse round trip by induction over the token list) + vm_compute correspondence",
+        design="5/C02"),
+    "C06": dict(
+        text=("Theorems: for EVERY permutation the internal shuffle may draw and every tree that answers radius queries correctly "
+              "(Section hypothesis rq_spec, checked on every run against a brute-force evaluation of the recorded tree call) "
+              "GeoIndex.query's model returns exactly the pairs within the radius, each once, indices as passed in, each with its own "
+              "distance in kilometres; independence of shuffle on/off, permutation, tree class and leaf size; the radius enters only "
+              "by its value in km; the unit table TRANSLATED from the source on every run equals the SI definitions, so '5 km' = "
+              "'5000 m'; over the reals, chord = 2 R sin(angle/2) and both metrics select the same pairs. Tie: the real GeoIndex "
+              "under harness-seeded shuffles (permutation read back from index.shuffler, tree answers recorded by a proxy); the "
+              "specification is evaluated inside Coq on a dense long-double distance matrix independent of typhon.geodesy, the "
+              "model on the recorded tree answers. The as-is defects (any() emptiness test, haversine /1000) are kept as _refuted theorems."),
+        note=COMMON_NOTE + " scikit-learn BallTree/KDTree.query_radius is a hypothesis (checked per run); IEEE rounding of distances bridged by a "
+             "guard band around the radius; real-number axioms in the metric theorems.",
+        technique="Coq proof (Permutation/NoDup reasoning over any shuffle, Q arithmetic for units, real analysis for the metrics) on a model whose unit table is translated from the source + vm_compute correspondence",
+        design="5/C06"),
+    "C10": dict(
+        text=("Theorems (closed under the global context) about the transition system of imap (Submit / Complete i / Yield over a "
+              "FIFO deque bounded by max_workers), quantified over EVERY trace the system accepts, i.e. every relative timing: "
+              "invariant on all reachable states, yielded files always a prefix of the stream, final output = values in find() "
+              "order up to the first exception, never more than max_workers unconsumed tasks, every file submitted / consumed / "
+              "completed at most once, progress and termination (<= 3n actions), exception propagation after all earlier results, "
+              "only read errors under error_to_warning become warning + None for that file; map = the same system with an "
+              "unbounded queue; collect drops None contents in order; the align loop loads each unique secondary once in order of "
+              "first appearance, delivers every matched pair and evicts after the last use. Tie: the real FileSet.map / imap / "
+              "collect / icollect / align run with FORCED completion orders (tasks gated by events, executors replaced by logging "
+              "subclasses); Coq checks that each recorded trace is accepted by the model and evaluates the specification."),
+        note=COMMON_NOTE + " concurrent.futures / threading / multiprocessing are modelled by the transition system (hypothesis), exercised by forced "
+             "schedules, not verified; real OS scheduling cannot be exhibited by the model.",
+        technique="Coq proof (invariant by induction over arbitrary action traces of a transition system) + trace-acceptance correspondence under forced schedules",
+        design="5/C10"),
+    "C12": dict(
+        text=("Theorems (closed under the global context) about an executable model of compress / compress_as / decompress as a "
+              "function of the primitive step that raises, for EVERY format table, codec, name, content and fault point: no "
+              "temporary file or directory survives any exit of either block, the decompressed copy is gone, every other file "
+              "keeps its bytes, an exception in the caller's block creates no target and leaves an existing one untouched, an "
+              "undisturbed block stores the archive of exactly the bytes written, round trip under dec(enc b) = b, pass-through of "
+              "other suffixes, zip member naming; advertised_formats is stated on the key set of _known_compressions TRANSLATED "
+              "from the source on every run. Tie: exhaustive fault injection over every injection point x format on the real code "
+              "in a child process; the model and the certified clause checker are evaluated in Coq on the same cases and the "
+              "stored files are opened with gzip/bz2/lzma/zipfile."),
+        note=COMMON_NOTE + " Standard-library codecs and tempfile/os.unlink behaviour are hypotheses exercised on every case; copy chunks above 100 MiB not exercised.",
+        technique="Coq proof (case analysis over all fault points of the step model, induction over copy blocks) on a model whose format table is translated from the source + vm_compute correspondence with exhaustive fault injection",
+        design="5/C12"),
+    "C13": dict(
+        text=("Theorems (closed under the global context) about list models of the compaction in Collocator._create_return, "
+              "_rows_for_secondaries, the NaN-padded bin matrix of collapse, expand and concat_collocations, for every compact "
+              "dataset: pairs are valid indices and every stored point occurs; rows are running counts; column c of the bin matrix "
+              "holds exactly the partner values of reference c then padding (any lane of any extra dimension, either reference), "
+              "hence any padding-ignoring collapser sees exactly the partner multiset; expand gives one row per pair with that "
+              "pair's values; expand(concat ds) = concat (map expand ds) and concat keeps the invariant; the boolean invariant "
+              "checker applied to implementation outputs is proved sound and complete. Tie: the real expand / collapse / "
+              "concat_collocations / Collocator.collocate on generated datasets; Coq returns positions, the harness compares id "
+              "rows exactly and statistics against long-double sums."),
+        note=COMMON_NOTE + " xarray selection/concat and numpy nan-statistics are modelled as list operations and exercised; the numba row-assignment variant is not installed here.",
+        technique="Coq proof (induction over pair lists) + vm_compute correspondence with a certified boolean checker",
+        design="5/C13"),
+    "C15": dict(
+        text=("Theorems (closed under the global context): crash_safe - after EVERY prefix of the primitive I/O sequence of "
+              "save_cache (open backup, each write, close, rename), whatever the two files held, the cache file is the previous "
+              "or the complete new document; history_safe / history_restart over all sequences of save / crash / restart; "
+              "time_roundtrip - strptime(strftime(t)) = t for every datetime from datetime.min to datetime.max to the microsecond "
+              "(digit-level model over the proved calendar), with the as-found unpadded %Y kept as asis_time_roundtrip_refuted; "
+              "save_load_roundtrip; malformed documents (wrong types, missing keys, null/short/bad times anywhere, truncation at any "
+              "byte given json rejects proper prefixes) leave the cache unchanged and warn - all or nothing, no invented times; "
+              "find_same_with_cache. Tie: child processes killed by os._exit after every single primitive over several prior "
+              "states, save histories, restart round trips, a corruption stream and real interpreter sessions with atexit, all "
+              "compared with the model evaluated in Coq."),
+        note=COMMON_NOTE + " POSIX rename atomicity (no fsync / power-failure model), the json module and glibc strftime/strptime are hypotheses exercised by the runs.",
+        technique="Coq proof (induction over crash prefixes and save histories; digit-level time codec round trip over the calendar) + vm_compute correspondence with crash injection in child processes",
+        design="5/C15"),
+    "C19": dict(
+        text=("coq/gen/scores.v (element-wise kernels of mape, bias, quantile_score) is REGENERATED from typhon/retrieval/scores.py on "
+              "every run; theorems over the reals re-checked against it: quantile_score is the pinball loss (tau|d| below, "
+              "(1-tau)|d| above), non-negative, zero iff equal; quantile_minimises - for ANY finite sample, tau in (0,1) and "
+              "constant c a tau-quantile has mean loss <= that of c (induction over the sample); shape contract accepted / "
+              "rejected; mape and bias are 0 for perfect predictions, |p| resp. p for a uniform p % offset, permutation and scale "
+              "invariant. Tie: translation + interval enclosures proved in Coq around the implementation's floats on small "
+              "samples, the shape model against the real accept/reject behaviour, and a numeric law sweep with exhaustive "
+              "search over sample points as candidate constants."),
+        note=COMMON_NOTE + " Translator trusted for the whitelisted subset (mitigated by enclosures); reshape/ravel/broadcast plumbing hand-modelled; real-number axioms, classic, funext in Print Assumptions.",
+        technique="Coq proof over R on kernels translated from the source on every run (lra/nra, induction over samples) + interval enclosures",
+        design="5/C19"),
+    "C20": dict(
+        text=("Theorems (closed under the global context) in exact rational arithmetic, on the tile table TRANSLATED from "
+              "SRTM30._tiles on every run: the table is well formed (27 disjoint tiles covering 60S-90N); for ANY rectangle inside "
+              "the covered area get_native_grids yields non-empty consecutive cell centres covering the rectangle with less than "
+              "one cell of margin (checker meaning proved); mosaic_cellwise - for any tile contents, entry [i,j] of the mosaic is "
+              "the value of the unique tile pixel centred at (lat[i], lon[j]) across 1, 2, 4 or more tiles; get_tiles names exactly "
+              "the intersecting tiles once; native grid of a tile's bounds = grid of the tile; download iff absent over every "
+              "request history; the as-found latitude arithmetic and -180 normalisation are kept as _refuted theorems. Tie: the "
+              "real SRTM30.elevation / get_tiles / get_grids / get_native_grids / get_tile on synthetic tile files with a "
+              "recording download stub, coordinates handed to Coq as the exact rationals of the doubles."),
+        note=COMMON_NOTE + " numpy trunc/arange/linspace/boolean-mask semantics and IEEE rounding in get_native_grids are modelled and bridged per case (guard band 1e-9 cell), not verified.",
+        technique="Coq proof (Z/Q arithmetic with lia, computation on the translated table lifted by lemmas) + vm_compute correspondence on synthetic tiles",
+        design="5/C20"),
 }
 
 
